@@ -3,6 +3,7 @@
   states and on the calls it made to staking / slashing.
 -/
 import ICS.Model.Equivocation
+import ICS.Model.Misbehaviour
 namespace ICS.Spec.C07
 open ICS ICS.Provider ICS.Epoch ICS.Equiv
 
@@ -52,5 +53,48 @@ def frame (x : Consumer) (e : Evidence) (ok : Bool) (stkB stkA : List SVal) : Bo
 /-- with tombstoning, at most once: a tombstoned validator is never punished again -/
 def tombstonedNeverAgain (stkB : List SVal) (effs : List Effect) : Bool :=
   effs.all fun f => match stkB.find? (·.id == f.val) with | some r => !r.tomb | none => true
+
+
+/-! ### light-client-attack evidence -/
+
+/-- identity `k` genuinely signed both headers (a non-absent commit signature of its own key) -/
+def genuineBoth (m : Misb) (k : Nat) : Bool :=
+  (m.h1.sigs.any fun s => s.key == k && s.flag != .absent && s.sigOK) &&
+  (m.h2.sigs.any fun s => s.key == k && s.flag != .absent && s.sigOK)
+
+/-- every call to staking / slashing names a validator owning (on this consumer) a key that
+    genuinely signed BOTH conflicting headers -/
+def misbOnlyDoubleSigners (x : Consumer) (m : Misb) (effs : List Effect) : Bool :=
+  effs.all fun f => m.h2.sigs.any fun s => genuineBoth m s.key && providerOf x s.key == f.val
+
+/-- accepted ⇒ the headers are for this consumer's chain and client, at one height not below the
+    minimum evidence height, really different, conflicting or of the same round, and the trusted
+    consensus state backs them -/
+def misbAcceptedOnlyIfValid (x : Consumer) (env : ClientEnv) (m : Misb) (ok : Bool) : Bool :=
+  !ok || (m.h1.chain == x.chain && m.h2.chain == x.chain && x.client == some m.client &&
+          m.h1.height == m.h2.height && decide (x.evmin ≤ m.h1.height) && hashesDiffer m &&
+          (conflicting m || m.h1.round == m.h2.round) &&
+          env.trustedMatches && !env.expired)
+
+/-- accepted ⇒ each punished validator is slashed with the consumer's double-sign fraction and
+    tombstoned iff the consumer says so -/
+def misbPerSettings (x : Consumer) (ok : Bool) (effs : List Effect) : Bool :=
+  if !ok then effs.isEmpty
+  else match x.infr.bind (·.ds) with
+    | none => false
+    | some ds =>
+      !effs.isEmpty &&
+      (effs.all fun f => match f with
+        | .slash _ _ fr => fr == ds.frac
+        | .tombstone _ => ds.tomb
+        | _ => true) &&
+      (ds.tomb == false || ((effs.filter fun f => match f with | .slash .. => true | _ => false).map (·.val)).all
+        fun v => effs.contains (.tombstone v))
+
+/-- frame for several punished validators -/
+def misbFrame (ok : Bool) (effs : List Effect) (stkB stkA : List SVal) : Bool :=
+  if !ok then stkB == stkA
+  else stkB.length == stkA.length &&
+    (stkB.zip stkA).all fun p => p.1.id == p.2.id && ((effs.any fun f => f.val == p.1.id) || p.1 == p.2)
 
 end ICS.Spec.C07
